@@ -388,10 +388,21 @@ def after_cross_app_failure(params, tier):
         b.send(B, type="close", mood="happy")
     Z = b.conn("app", "s2")
     b.send(Z, type="open", mailbox="xid")           # a new incarnation starts empty
+    # the foreign client goes on as if its command had worked (on a tree where it fails the connection is gone and
+    # these are no-ops): whatever it manages to store is deleted by its close, and its app's next open starts empty
+    b.add(X, "foreign")
+    b.send(X, type="close", mailbox="xid", mood="happy") if p["cmd"] == "open" else None
+    b.drop(X)
+    X2 = b.conn("app2", "s1")
+    b.send(X2, type="open", mailbox="xid")
+    b.add(X2, "foreign2")
+    b.send(X2, type="close", mood="happy")
+    X3 = b.conn("app2", "s2")
+    b.send(X3, type="open", mailbox="xid")
     return [("after_cross_app_failure:%s" % sorted(p.items()), b.h, U if p["usage"] else NU, {})]
 
 
-@family("C01", "C02", "C06")
+@family("C01", "C02", "C06", "C08", "C09", "C12", "C13")
 def scale(params, tier):
     """Counts well above what the random histories reach: many apps bound between a client's bind and its open, many
     subscribers on one mailbox, many stored messages, many mailboxes and nameplates side by side, a large body."""
@@ -424,6 +435,15 @@ def scale(params, tier):
         b.add(cs[-1], "tail")
         b.send(cs[1], type="close", mood="happy")
         b.add(cs[2], "tail2")
+        # all but the last few go away; the survivors stay subscribed over several sweeps and then speak again
+        for c in cs[2:60]:
+            b.drop(c)
+        b.adv(1300)
+        b.add(cs[-1], "late")
+        b.add(cs[-2], "late2")
+        b.adv(400)
+        for c in cs[60:]:
+            b.drop(c)
     elif w == "messages":
         a = b.conn("app", "s1")
         b.send(a, type="open", mailbox="log")
